@@ -52,13 +52,26 @@ def prop_modules(prop):
 
 
 def theorem_names(prop):
+    """fully qualified names of the public theorems of the property's modules (namespaces tracked line
+    by line: a file may open several) and the number of `example`s"""
     names, n_examples = [], 0
     for mod in prop_modules(prop):
         src = strip_comments(open(os.path.join(LEAN_DIR, "CR", "Props", mod + ".lean")).read())
-        ns = re.findall(r"^namespace\s+(\S+)", src, flags=re.M)
-        prefix = (ns[0] + ".") if ns else ""
-        names += [prefix + n for n in re.findall(r"^\s*(?:protected\s+)?theorem\s+([^\s:({\[]+)", src, flags=re.M)]
-        n_examples += len(re.findall(r"^\s*example\b", src, flags=re.M))
+        stack = []
+        for line in src.split("\n"):
+            m = re.match(r"^namespace\s+(\S+)", line)
+            if m:
+                stack.append(m.group(1))
+                continue
+            m = re.match(r"^end\s+(\S+)", line)
+            if m and stack and stack[-1] == m.group(1):
+                stack.pop()
+                continue
+            m = re.match(r"^\s*(?:protected\s+)?theorem\s+([^\s:({\[]+)", line)
+            if m:
+                names.append(".".join(stack + [m.group(1)]))
+            elif re.match(r"^\s*example\b", line):
+                n_examples += 1
     return names, n_examples
 
 
